@@ -406,12 +406,22 @@ func BackwardOpt(v ssa.Value, followCall func(*ssa.Call) bool) map[ssa.Value]boo
 				visit(e)
 			}
 		case *ssa.UnOp:
-			visit(t.X)
 			if t.Op == token.MUL {
+				if al, ok := t.X.(*ssa.Alloc); ok {
+					// a local variable cell: only the stores that may reach this load (flow-sensitive)
+					set[al] = true
+					for _, s := range ReachingStores(t) {
+						visit(s.Val)
+					}
+					break
+				}
+				visit(t.X)
 				if al := allocRoot(t.X); al != nil {
 					visit(al)
 				}
+				break
 			}
+			visit(t.X)
 		case *ssa.Alloc:
 			for _, s := range storesInto(t) {
 				visit(s.Val)
@@ -497,4 +507,46 @@ func LoadOfField(owner string) func(ssa.Value) bool {
 		}
 		return false
 	}
+}
+
+// ReachingStores returns the stores to the local cell read by load that may
+// reach it (classical reaching definitions, intraprocedural; a path from the
+// Alloc itself without a store contributes nothing = the zero value).
+func ReachingStores(load *ssa.UnOp) []*ssa.Store {
+	cell := load.X
+	var out []*ssa.Store
+	seenStore := map[*ssa.Store]bool{}
+	seenBlock := map[*ssa.BasicBlock]bool{}
+	// scan backwards inside block b from index i-1
+	var scan func(b *ssa.BasicBlock, from int)
+	scan = func(b *ssa.BasicBlock, from int) {
+		for i := from; i >= 0; i-- {
+			in := b.Instrs[i]
+			if st, ok := in.(*ssa.Store); ok && st.Addr == cell {
+				if !seenStore[st] {
+					seenStore[st] = true
+					out = append(out, st)
+				}
+				return
+			}
+			if in == ssa.Instruction(cell.(*ssa.Alloc)) {
+				return
+			}
+		}
+		for _, p := range b.Preds {
+			if !seenBlock[p] {
+				seenBlock[p] = true
+				scan(p, len(p.Instrs)-1)
+			}
+		}
+	}
+	b := load.Block()
+	idx := 0
+	for i, in := range b.Instrs {
+		if in == ssa.Instruction(load) {
+			idx = i
+		}
+	}
+	scan(b, idx-1)
+	return out
 }
